@@ -371,3 +371,25 @@ func (s *Script) expandAddr(t string) string {
 	}
 	return t
 }
+
+// patternUnsafe reports whether term t, with define-funs expanded, contains a connective z3 rejects in patterns.
+func (s *Script) patternUnsafe(t string) bool {
+	seen := map[string]bool{}
+	var rec func(x string) bool
+	rec = func(x string) bool {
+		for _, tk := range strings.Fields(strings.NewReplacer("(", " ", ")", " ").Replace(x)) {
+			switch tk {
+			case "ite", "and", "or", "not", "=>", "=", "<", "<=", ">", ">=":
+				return true
+			}
+			if d, ok := s.defs[tk]; ok && !seen[tk] {
+				seen[tk] = true
+				if rec(d) {
+					return true
+				}
+			}
+		}
+		return false
+	}
+	return rec(t)
+}
